@@ -385,7 +385,8 @@ func Run(args []string) int {
 	// service layer: real services/alert.Service with publish/match handler specs
 	nsvc := f.N / 2
 	for i := 0; i < nsvc; i++ {
-		ops := genSvcCase(r.Fork(), 6+r.Intn(40))
+		// every third service case is a multi-entry configuration (diamonds, direct+published topics)
+		ops := genSvcCase(r.Fork(), 6+r.Intn(40), i%3 == 2)
 		emit(out, fmt.Sprintf("s%d", i), watchdog(out, fmt.Sprintf("s%d", i), ops))
 	}
 	// aggregate handler (wall-clock ticker, short interval): few cases, each waits for real ticks
